@@ -84,15 +84,22 @@ class Kernel:
             order += [v + ".0" for v in self.order if v in self.tiles]
         return order
 
-    def prepare(self, tensors, zshape=None):
-        """zshape: optional dict index var -> extent; gives Z a declared shape."""
+    def prepare(self, tensors, zshape=None, ztemplate=None):
+        """zshape: optional dict index var -> extent; gives Z a declared shape.
+        ztemplate: an (empty) output tensor in the expression's rank order; the kernel's output is the template
+        swizzled to the loop order (untiled programs only)."""
         order = self.loop_order()
         prepped = []
         for t, ranks in zip(tensors, self.ins):
             tt = t
             for v in ranks:
                 if v in self.tiles:
-                    tt = tt.splitUniform(self.tiles[v], depth=tt.getRankIds().index(v))
+                    if self.tiles[v] < 0:
+                        # `tensor / parts`: the top rank cut into that many equal parts of its shape
+                        assert tt.getRankIds().index(v) == 0
+                        tt = tt / (-self.tiles[v])
+                    else:
+                        tt = tt.splitUniform(self.tiles[v], depth=tt.getRankIds().index(v))
             want = [r for r in order if r in tt.getRankIds()]
             if want != tt.getRankIds():
                 tt = tt.swizzleRanks(want)
@@ -101,7 +108,10 @@ class Kernel:
         for v in self.out:
             zranks += [v + ".1", v + ".0"] if v in self.tiles else [v]
         zorder = [r for r in order if r in zranks]
-        if zshape is not None and zorder:
+        if ztemplate is not None:
+            assert not self.tiles
+            Z = ztemplate.swizzleRanks(zorder) if zorder else ztemplate
+        elif zshape is not None and zorder:
             Z = Tensor(rank_ids=zorder, shape=[zshape[r.split(".")[0]] for r in zorder], name="Z")
         else:
             Z = Tensor(rank_ids=zorder, name="Z")
@@ -109,8 +119,8 @@ class Kernel:
         return prepped, Z
 
     # -- execution -------------------------------------------------------------
-    def run(self, tensors, zshape=None):
-        ins, Z = self.prepare(tensors, zshape)
+    def run(self, tensors, zshape=None, ztemplate=None):
+        ins, Z = self.prepare(tensors, zshape, ztemplate)
         return self.execute(ins, Z)
 
     def execute(self, ins, Z):
